@@ -110,6 +110,10 @@ func Reach(label string) {}
 func Known(id string) bool { return os.Getenv("VERIF_KNOWN_"+strings.ReplaceAll(id, "-", "_")) != "" }
 func Finding(id string, c bool) {
 	Findings = append(Findings, id)
+	if !Known(id) {
+		Failures = append(Failures, "behaviour of finding "+id+" observed, but "+id+" is not listed as a known finding")
+		return
+	}
 	if !c {
 		Failures = append(Failures, "behaviour differs from known finding "+id)
 	}
